@@ -273,6 +273,51 @@ theorem C16_accept_fault_counterexample :
       [.connect 1 .good, .call 1 .ping, .acceptFault, .call 1 .ping, .connect 2 .good] =
       [some .ok, some (.reply .pong), some .none, some (.reply .pong), some .ok] := by decide
 
+/-! ### no thread / child process for a new client (`C16:spawn-failure-closes-server`, repaired) -/
+
+/-- **the obligation**: when `_accept_method` cannot start a thread / child for a new client (`spawn()`: RuntimeError,
+`os.fork()`: OSError) the code's `Server.accept` comes back normally with that client's socket closed and forgotten -
+measured on the live function on every run; on a tree where the exception leaves `accept()` (and `start()` closes the
+server) this fails -/
+theorem spawn_failure_turns_client_away : Gen.Srv.spawnFailureTurnsClientAway = true := by decide
+
+/-- with it: after ANY history of client actions (threaded, forking) a client for which no thread / child can be started
+is accepted and turned away - it is given end-of-stream, nothing is created for it, nothing of it remains -, every other
+client's record is exactly as before, the accept loop is as alive and free as before, and the next client is served -/
+theorem spawn_failure_turns_one_client_away (cfg : Cfg) (hk : cfg.kind = .threaded ∨ cfg.kind = .forking)
+    (ops : List Op) (hops : ∀ op ∈ ops, op.c16 = true) (k : Nat) (hg : ((run (init cfg) ops).cli k).phase = .absent) :
+    ∃ t, step (run (init cfg) ops) (.connectNoSpawn k) = .ok (t, .ok) ∧
+      (t.cli k).shut = true ∧ (t.cli k).inst = none ∧
+      ((t.cli k).tracked = false ∧ (t.cli k).srvFd = false ∧ (t.cli k).child = false ∧ (t.cli k).connOpen = false ∧
+        (t.cli k).inFd = false ∧ (t.cli k).polled = false ∧ t.queue = (run (init cfg) ops).queue ∧
+        t.blocked = (run (init cfg) ops).blocked) ∧
+      (∀ j, j ≠ k → t.cli j = (run (init cfg) ops).cli j) ∧ Accepting t ∧
+      ∀ g, g ≠ k → ((run (init cfg) ops).cli g).phase = .absent →
+        ∃ u, step t (.connect g .good) = .ok (u, .ok) ∧ Ready (u.cli g) := by
+  have hacc := accept_survives cfg hk (ops := ops) hops
+  have hkind : (run (init cfg) ops).cfg.kind = .threaded ∨ (run (init cfg) ops).cfg.kind = .forking := by
+    rw [run_cfg]; exact hk
+  have hne : ∀ j, j ≠ k → (rejectNew (run (init cfg) ops) k).cli j = (run (init cfg) ops).cli j :=
+    fun j hj => by simp [rejectNew, set_cli_ne _ _ _ _ hj]
+  have hacc' : Accepting (rejectNew (run (init cfg) ops) k) := by
+    refine ⟨hacc.up, hacc.free, ?_⟩
+    intro j
+    by_cases hj : j = k
+    · subst hj; simp [rejectNew, turnedAway]
+    · rw [hne j hj]; exact hacc.nobacklog j
+  refine ⟨rejectNew (run (init cfg) ops) k, ?_, by simp [rejectNew, turnedAway], by simp [rejectNew, turnedAway], ?_,
+    hne, hacc', ?_⟩
+  · have hl : (run (init cfg) ops).listening = true := hacc.up.2.1
+    have hc := hacc.canAccept
+    rcases hkind with h | h <;> simp [step, hg, h, hl, hc]
+  · exact ⟨by simp [rejectNew, turnedAway], by simp [rejectNew, turnedAway], by simp [rejectNew, turnedAway],
+      by simp [rejectNew, turnedAway], by simp [rejectNew, turnedAway], by simp [rejectNew, turnedAway], rfl, rfl⟩
+  · intro g hgk hga
+    have hne' : (rejectNew (run (init cfg) ops) k).cfg.kind ≠ .oneshot := by
+      rcases hkind with h | h <;> simp [rejectNew, h]
+    obtain ⟨u, h1, h2, _⟩ := connect_served hacc' hne' g (by rw [hne g hgk]; exact hga)
+    exact ⟨u, h1, h2⟩
+
 /-- everything the property says: in full for the threaded and forking servers; isolation for every kind; for the pool
 under the two hypotheses the counterexamples show to be necessary -/
 theorem C16_partial (cfg : Cfg) :
